@@ -101,3 +101,27 @@ def _fix_concat_eq():
 
 
 _fix_concat_eq()
+
+
+def _opaque_encode():
+    # str.encode(errors="surrogateescape"/"backslashreplace") of a *symbolic* string returns an opaque
+    # SymBytes that remembers the text (CrossHair would realize the string otherwise).
+    import sys
+
+    from crosshair.libimpl import builtinslib as bl
+
+    sys.path.insert(0, __import__("os").environ.get("VK_HOME", "/verif"))
+    from vk.symbytes import SymBytes
+
+    orig = bl.AnySymbolicStr.encode
+
+    def encode(self, encoding="utf-8", errors="strict"):
+        enc = encoding.lower().replace("-", "").replace("_", "") if isinstance(encoding, str) else ""
+        if enc == "utf8" and errors in ("surrogateescape", "backslashreplace"):
+            return SymBytes([self])
+        return orig(self, encoding, errors)
+
+    bl.AnySymbolicStr.encode = encode
+
+
+_opaque_encode()
